@@ -50,7 +50,9 @@ CONSTANTS Grids,        \* sequence of incidence records
 VARIABLE st
 GR(g) == Grids[g]
 
-CountsOf(G) == {1, 2, 3, G.nc}
+\* n_cells \div 2: on simplex grids a split into about half as many parts as cells is where single faces lie in the
+\* overlap of three sub-problems (the split into n_cells parts visits no face more than twice)
+CountsOf(G) == {1, 2, 3, G.nc \div 2, G.nc} \ {0}
 AllBcModes == {"dir", "neu", "mix", "mix3", "roll"}
 
 Variants(G) ==
